@@ -515,6 +515,12 @@ impl TrainDisp {
                         disp_auth_exit.arrive_exit.min(self.time_update_next);
                     disp_auth_exit.arrive_entry =
                         disp_auth_exit.clear_entry.min(self.time_update_next);
+                    // The train has left the model: its tail has passed every entry point by now.
+                    // Without this a link whose entry the tail never passed keeps clear_entry =
+                    // infinity, and a following train is then timed at `clear_entry + time_spacing`
+                    // = infinity for the rest of its trip.
+                    disp_auth_exit.clear_entry =
+                        disp_auth_exit.clear_entry.min(self.time_update_next);
                     disp_auth_exit.clear_exit = self.time_update_next;
 
                     update_links_blocked(
